@@ -11,7 +11,8 @@
  *   dadj R N                   each_ref_cell_having_node order of the donor cells around local node N  -> ok c c ...
  *   radj R N                   ref_grid_node_list_around of the receptor                               -> ok n n ...
  *   geomlist R                 ref_interp_geom_node_list of both grids                                 -> ok D d d .. T t t ..
- *   locate                     ref_interp_create (twice), every slot of ref_interp->bary pre-filled with NaN, then
+ *   locate (dn dc db rn rc rb)*NP   the counts of node / cell / boundary lines of every rank, donor then receptor (else
+ *                              bad-op); then ref_interp_create (twice), every slot of ref_interp->bary pre-filled with NaN, then
  *                              (A) the stage functions in the order ref_interp_locate calls them, white box, with a
  *                                  snapshot of ref_interp->cell between the stages, and
  *                              (B) the real ref_interp_locate on a second, identically prepared REF_INTERP;
@@ -54,7 +55,7 @@ static REF_MPI h_mpi = NULL;
 static REF_GRID from = NULL, to = NULL;
 static int active = 0, twod = 0;
 static long seed0 = 1;
-static int dn[MAXR], rn[MAXR], dc[MAXR], rc[MAXR];
+static int dn[MAXR], rn[MAXR], dc[MAXR], rc[MAXR], db[MAXR], rb[MAXR];
 
 /* ---- result string of this rank ---- */
 static char *res;
@@ -171,7 +172,7 @@ static void drop_all(void) {
   to = NULL;
   if (from) ref_grid_free(from);
   from = NULL;
-  for (r = 0; r < MAXR; r++) dn[r] = rn[r] = dc[r] = rc[r] = 0;
+  for (r = 0; r < MAXR; r++) dn[r] = rn[r] = dc[r] = rc[r] = db[r] = rb[r] = 0;
   active = 0;
 }
 
@@ -384,8 +385,11 @@ static void op_cell(int donor, int bnd) {
     if (REF_SUCCESS != ref_cell_add(ref_cell, nodes, &cell)) _exit(7);
     if (!bnd && cell != (donor ? dc[r] : rc[r])) _exit(8);
   }
-  if (bnd) say("ok");
-  else {
+  if (bnd) {
+    if (donor) db[r]++;
+    else rb[r]++;
+    say("ok");
+  } else {
     char b[32];
     snprintf(b, sizeof b, "ok %d", donor ? dc[r] : rc[r]);
     if (donor) dc[r]++;
@@ -508,8 +512,17 @@ int main(int argc, char *argv[]) {
     else if (0 == strcmp(op, "dadj")) op_adj(1);
     else if (0 == strcmp(op, "radj")) op_adj(0);
     else if (0 == strcmp(op, "geomlist")) op_geomlist();
-    else if (0 == strcmp(op, "locate") && h_nw == 1) {
-      op_locate();
+    else if (0 == strcmp(op, "locate") && h_nw == 1 + 6 * np && valid_is(1, 6 * np)) {
+      /* `locate` names the number of node / cell / boundary lines of every rank (donor, then receptor): a session that
+       * lost a line (a shrunk replay) is not a consistent distributed grid any more and is answered `bad-op` */
+      int r, okc = 1;
+      for (r = 0; r < np; r++) {
+        if (h_i(h_w[1 + 6 * r]) != dn[r] || h_i(h_w[2 + 6 * r]) != dc[r] || h_i(h_w[3 + 6 * r]) != db[r] ||
+            h_i(h_w[4 + 6 * r]) != rn[r] || h_i(h_w[5 + 6 * r]) != rc[r] || h_i(h_w[6 + 6 * r]) != rb[r])
+          okc = 0;
+      }
+      if (okc) op_locate();
+      else say("bad-op");
     } else say("bad-op");
     alarm(0);
   }
